@@ -162,6 +162,14 @@ fn get_global_info(root: &Node<'_>) -> GlobalInfo {
             }
         }
         given.extend(number_names);
+
+        // two infosets with the same name would silently be merged into one
+        let mut unique_names = HashSet::new();
+        for name in given.values() {
+            if !unique_names.insert(name) {
+                panic!("two different infosets of one player were both named \"{}\" : https://github.com/erikbrinkman/cfr#duplicate-infosets", name);
+            }
+        }
     }
 
     // go through terminal payoffs to determine value of constant sum
